@@ -80,6 +80,7 @@ theorem idle_quiet_op {s : AState} {fin : List Nat} (hqe : s.chan.queue = []) (h
     cases hk : r.kind <;> simp only [hk] at hnone hst
     case send m => simp [Chan.isParked, hpk] at hnone
     case trySend m => simp [Chan.isParked, hpk] at hnone
+    case tryForce m => simp [Chan.isParked, hpk] at hnone
     case await => exact .inl rfl
     case halt =>
       have := hstp (by simp [needsStop, hs, hk])
